@@ -13,7 +13,7 @@ ReadKind(kd) == CASE kd = "INTEGER" -> "int" [] kd = "REAL" -> "real" [] kd = "N
                   [] kd = "entity" -> "ref" [] kd = "select" -> "sel" [] kd = "aggr" -> "li"
 PlacesOf(s, pop) == UNION {{[i |-> i, j |-> j, kind |-> ReadKind(KindOfRef(s, AttrAt(s, pop[i].ent, j).ty)),
                               opt |-> EffOpt(s, pop[i].ent, AttrOrder(s, pop[i].ent)[j]), inherited |-> AttrOrder(s, pop[i].ent)[j].owner # pop[i].ent] :
-                             j \in 1..Len(pop[i].params)} : i \in 1..Len(pop)}
+                             j \in {k \in 1..Len(pop[i].params) : pop[i].params[k].k # "star"}} : i \in 1..Len(pop)}
 Init == c \in {ch \in Choices(Deep) : Covered(ch) /\ Conforming(Valid(ch))} /\ n \in 0..Rounds
 Next == UNCHANGED <<c, n>>
 Emit == PrintT("@@CASE " \o ToJson([choice |-> c, n |-> n, schema |-> Valid(c), pop |-> Pop(Valid(c), n),
